@@ -310,10 +310,10 @@ func vtkTick(t core.SuDate) {
 // backwards; this is the step VerifC34Ts replays as its event 0), and the values handed out
 // are pairwise different and strictly increasing.
 //
-//symgo:harness prop=C34 tier=quick shards=4 tshards=8 timeout=300 ttimeout=1700 preempt=0 replay=off havoc=(github.com/apmckinlay/gsuneido/core.SuDate).MinusMs summary=core.Now=vsumNow summary=(github.com/apmckinlay/gsuneido/core.SuDate).Plus=vsumPlus bounds=scripts_of_3_(thorough_5)_events_from_{the_real_ticker_goroutine_reads_an_arbitrary_clock_second_of_the_same_day,direct_request};server_timestamp_starts_at_any_time_of_day_and_millisecond;the_ticker_runs_only_while_the_harness_waits_for_it_(1_pre-emption:_VerifC34TickerPreempt) outside=clock_readings_on_another_day;the_time-skip_log_message_(SuDate.MinusMs,_used_only_for_it,_returns_an_arbitrary_value:_both_log_branches_are_run);SuDate.Plus_by_its_contract_as_in_VerifC34Ts;no_native_replay_(the_clock_and_the_schedule_cannot_be_forced_natively)
+//symgo:harness prop=C34 tier=quick shards=4 tshards=8 timeout=300 ttimeout=1700 preempt=0 replay=off havoc=(github.com/apmckinlay/gsuneido/core.SuDate).MinusMs summary=core.Now=vsumNow summary=(github.com/apmckinlay/gsuneido/core.SuDate).Plus=vsumPlus bounds=scripts_of_3_(thorough_4)_events_from_{the_real_ticker_goroutine_reads_an_arbitrary_clock_second_of_the_same_day,direct_request},_the_last_one_a_request;server_timestamp_starts_at_any_time_of_day_and_millisecond;the_ticker_runs_only_while_the_harness_waits_for_it_(1_pre-emption:_VerifC34TickerPreempt) outside=clock_readings_on_another_day;the_time-skip_log_message_(SuDate.MinusMs,_used_only_for_it,_returns_an_arbitrary_value:_both_log_branches_are_run);SuDate.Plus_by_its_contract_as_in_VerifC34Ts;no_native_replay_(the_clock_and_the_schedule_cannot_be_forced_natively)
 func VerifC34Ticker() {
 	if rt.Thorough() {
-		vticker(5)
+		vticker(4)
 	} else {
 		vticker(3)
 	}
@@ -341,8 +341,8 @@ func vticker(nev int) {
 	for i := 0; i < nev; i++ {
 		nm := vname34("e", i)
 		if rt.Pick(nm, 2) == 0 {
-			if i == nev-1 && !rt.Thorough() {
-				return // covered by the shorter script
+			if i == nev-1 {
+				return // the last event is a request (clock readings: the first nev-1 events)
 			}
 			before := vtsOf(timestamp)
 			// the reading has milliseconds: ticker must strip them (WithoutMs)
